@@ -78,6 +78,7 @@ void item_copy(const struct item *src_item, struct item *dst_item)
     item_deinit(dst_item);
 
     dst_item->type = src_item->type;
+    dst_item->sensitive = src_item->sensitive;
 
     if (src_item->type != item_type_none)
 	dst_item->data = ut_strdup(src_item->data);
